@@ -614,6 +614,12 @@ async fn drive_session<T: netconf::transport::Transport>(
     ev
 }
 
+static LOCAL_ENTRY: std::sync::atomic::AtomicBool = std::sync::atomic::AtomicBool::new(false);
+fn ev_local_entry(shim: bool) {
+    LOCAL_ENTRY.store(shim, std::sync::atomic::Ordering::Relaxed);
+}
+
+#[allow(dead_code)]
 fn cpu_ms() -> u64 {
     unsafe {
         let mut ru: libc::rusage = std::mem::zeroed();
@@ -644,16 +650,29 @@ async fn run_case(case: Value, acceptor: tokio_rustls::TlsAcceptor, wd: String) 
             let script = format!("{wd}/cli-{}.json", case["case"].as_str().unwrap_or("x"));
             std::fs::write(&script, case.to_string()).unwrap();
             let exe = std::env::current_exe().unwrap();
-            let est = async {
-                let t = JunosLocal::verif_connect(exe, &["fakecli".to_string(), script.clone()]).await?;
-                Session::verif_with_transport(t).await
+            // with the /usr/sbin/cli shim of bin/setup in place the library's own entry point is used
+            // (Session::junos_local -> JunosLocal::connect, the code a Junos system runs); otherwise the hook
+            let shim = std::fs::read_to_string("/usr/sbin/cli").map_or(false, |t| t.contains("bgpfu-rs verification shim"));
+            let r = if shim {
+                // one case per process: the environment is this case's alone
+                std::env::set_var("BGPFU_VERIF_CLI", format!("{} fakecli {}", exe.display(), script));
+                drive_session(Session::junos_local(), &case).await
+            } else {
+                let est = async {
+                    let t = JunosLocal::verif_connect(exe, &["fakecli".to_string(), script.clone()]).await?;
+                    Session::verif_with_transport(t).await
+                };
+                drive_session(est, &case).await
             };
-            let r = drive_session(est, &case).await;
+            ev_local_entry(shim);
             let _ = std::fs::remove_file(&script);
             r
         }
     };
     ev["ev"] = json!("frame");
+    if transport == "local" {
+        ev["entry"] = json!(if LOCAL_ENTRY.load(std::sync::atomic::Ordering::Relaxed) { "Session::junos_local" } else { "verif_connect" });
+    }
     for k in ["case", "transport", "hello_cuts", "hello_close", "hello_close_at", "bodies", "cuts", "close", "close_at",
               "pause_after_first_ms", "drop_first_after_ms"] {
         if !case[k].is_null() {
